@@ -30,6 +30,13 @@ func encodeFunc(P *Prog, key string) *Enc {
 var skipFuncs = map[string]string{
 	"parser.(*yyParserImpl).Parse": "goyacc LR driver (6500 instructions, goto machine): trusted; its semantic actions are extracted and checked separately",
 	"parser.init":                  "generated table initialisers (checked by the table lemma, not symbolically executed)",
+	"parser.yyErrorMessage":        "goyacc runtime helper (trusted driver)",
+	"parser.yylex1":                "goyacc runtime helper (trusted driver)",
+	"parser.yyNewParser":           "goyacc runtime helper (trusted driver)",
+	"parser.yyTokname":             "goyacc runtime helper (trusted driver)",
+	"parser.yyStatname":            "goyacc runtime helper (trusted driver)",
+	"parser.(*yyParserImpl).Lookahead": "goyacc runtime helper (trusted driver)",
+	"parser.(*yyParserImpl).Parse$1":   "goyacc runtime helper (trusted driver)",
 }
 
 func main() {
@@ -109,6 +116,9 @@ func cmdDebug(args []string) {
 		fmt.Printf("== %s: %d obligations, %d body lines, unsupported=%q\n", k, len(e.obls), len(e.body), e.unsupported)
 		for _, w := range e.warnings {
 			fmt.Println("   warn:", w)
+		}
+		for h, li := range e.loops {
+			fmt.Printf("   loop %d: header block %d at %s (%d blocks) spec=%v\n", li.ordinal, h.Index, e.pos(blockPos(h)), len(li.blocks), li.spec != nil)
 		}
 		for _, o := range e.obls {
 			if *prop != "" && !hasProp(o.Props, *prop) {
